@@ -545,7 +545,8 @@ func Parse(block []rune, pos int) (pt ParsedTokens, syntaxHighlighted string) {
 				ansiChar(hlPipe, block[i:i+2]...)
 				ansiStartFunction()
 				i++
-			case i > 0 && block[i-1] == ' ':
+			case i > 0 && (block[i-1] == ' ' || block[i-1] == '\t'), next(' '), next('\t'):
+				// (murex reads `?` as the stderr pipe when a blank stands on either side of it)
 				if pos != 0 && pt.Loc >= pos {
 					return
 				}
